@@ -103,3 +103,96 @@ func callerMapReuse(kind int, cached, parentTagged, san bool) string {
 	}
 	return ""
 }
+
+// c01Override: "all scopes" - a Tagged map that overrides a tag of its parent, with fewer, as many and
+// more entries than the parent's own tag set (np parent tags, nr requested entries, one of them the
+// overriding "env"), one level and two levels deep; counters named alike on every scope; one pass.
+// Every (name, tags) series must deliver exactly the increments made through the scope that denotes it:
+// the requested value wins over the parent's whatever the sizes of the two maps.
+func c01Override(cached bool, np, nr int) string {
+	log := &Log{}
+	opts := tally.ScopeOptions{OmitCardinalityMetrics: true, Tags: map[string]string{"env": "prod"}}
+	for i := 1; i < np; i++ {
+		opts.Tags[fmt.Sprintf("p%d", i)] = "x"
+	}
+	if cached {
+		opts.CachedReporter = &RecCached{L: log, Caps: caps{true, true}}
+	} else {
+		opts.Reporter = &RecReporter{L: log, Caps: caps{true, true}}
+	}
+	root, closer := tally.VerifNewRootScope(opts, 0, 1)
+	defer closer.Close()
+	merged := func(base map[string]string, over map[string]string) map[string]string {
+		m := map[string]string{}
+		for k, v := range base {
+			m[k] = v
+		}
+		for k, v := range over {
+			m[k] = v
+		}
+		return m
+	}
+	key := func(m map[string]string) string {
+		var kv []string
+		for k, v := range m {
+			kv = append(kv, k+"="+v)
+		}
+		sort.Strings(kv)
+		return strings.Join(kv, ",")
+	}
+	req := map[string]string{"env": "canary"}
+	for i := 1; i < nr; i++ {
+		req[fmt.Sprintf("c%d", i)] = "y"
+	}
+	req2 := map[string]string{"env": "staging"}
+	for i := 1; i < nr; i++ {
+		req2[fmt.Sprintf("c%d", i)] = "z" // overrides the child's own extras as well
+	}
+	child := root.Tagged(req)
+	grand := child.Tagged(req2)
+	want := map[string]int64{}
+	inc := func(s tally.Scope, tags map[string]string, n int64) {
+		s.Counter("requests").Inc(n)
+		want[key(tags)] += n
+	}
+	t0 := opts.Tags
+	t1 := merged(t0, req)
+	t2 := merged(t1, req2)
+	inc(root, t0, 4)
+	inc(child, t1, 3)
+	inc(grand, t2, 5)
+	inc(root.Tagged(map[string]string{"env": "canary"}), merged(t0, map[string]string{"env": "canary"}), 7)
+	tally.VerifReportOnce(root)
+	got := map[string]int64{}
+	alloc := map[int64]string{}
+	tagsOf := func(s []string) string {
+		var kv []string
+		for i := 1; i+1 < len(s); i += 2 {
+			kv = append(kv, s[i]+"="+s[i+1])
+		}
+		sort.Strings(kv)
+		return strings.Join(kv, ",")
+	}
+	for _, e := range log.Snapshot() {
+		switch e.K {
+		case 1:
+			got[tagsOf(e.S)] += e.I[0]
+		case 11:
+			alloc[e.I[0]] = tagsOf(e.S)
+		case 21:
+			got[alloc[e.I[0]]] += e.I[1]
+		}
+	}
+	for k, n := range want {
+		if got[k] != n {
+			return fmt.Sprintf("root tags {%s}; Tagged{%s} and below it Tagged{%s}: counter \"requests\" of the scope denoting {%s} was incremented by %d, delivered %d; all deliveries by tags: %v",
+				key(t0), key(req), key(req2), k, n, got[k], got)
+		}
+	}
+	for k, n := range got {
+		if _, ok := want[k]; !ok && n != 0 {
+			return fmt.Sprintf("root tags {%s}; Tagged{%s} and below it Tagged{%s}: %d delivered for \"requests\" under {%s}, a tag set no scope denotes; all deliveries by tags: %v", key(t0), key(req), key(req2), n, k, got)
+		}
+	}
+	return ""
+}
